@@ -199,10 +199,11 @@ def main():
 
     confirmed = 0
     PRINT_CAP = 25
-    os.makedirs(os.path.join(VERIF, "replay", pid), exist_ok=True)
+    rpdir = os.path.join(os.environ.get("VERIF_REPLAY_DIR") or os.path.join(VERIF, "replay"), pid)
+    os.makedirs(rpdir, exist_ok=True)
     for fp in new_fps[:PRINT_CAP]:
         v = by_fp[fp][0]
-        path = os.path.join(VERIF, "replay", pid, fp_file(fp) + ".json")
+        path = os.path.join(rpdir, fp_file(fp) + ".json")
         with open(path, "w") as f:
             json.dump({"property": pid, "fingerprint": list(fp), "task": jsonable(tasks[v["task_index"]]),
                        "detail": v["detail"], "occurrences": merged.fp_counts.get(tuple(fp[1:]), len(by_fp[fp])), "tier": args.tier,
@@ -254,8 +255,9 @@ def main():
         "wall_s": round(wall, 2),
         "violations": len(new_fps),
     }
-    os.makedirs(os.path.join(VERIF, "evidence"), exist_ok=True)
-    evpath = os.path.join(VERIF, "evidence", pid + ".json")
+    evdir = os.environ.get("VERIF_EVIDENCE_DIR") or os.path.join(VERIF, "evidence")   # seeded-change runs write elsewhere
+    os.makedirs(evdir, exist_ok=True)
+    evpath = os.path.join(evdir, pid + ".json")
     with open(evpath, "w") as f:
         json.dump(ev, f, indent=1, default=repr)
     bad = _validate_evidence(evpath)
